@@ -14,8 +14,10 @@ theorem nextIs_other (a : List Char) (c d : Char) (t : List Char) (ha : OptBlank
 
 /-- the range check of `_mpt_iterator_range` passes for the ranges the spec gives a meaning -/
 theorem range_check (a b st : Rat) (h1 : a < b) (h2 : 0 < st) (h3 : st ≤ b - a) (h4 : (b - a) / 100000 ≤ st) :
-    ¬ (¬ (0 < st) ∨ b - a < st ∨ st < (b - a) * (1 / 1000000)) := by
+    ¬ (¬ (0 < st) ∨ (b - a) * (1 + rangeTol) < st ∨ st < (b - a) * (1 / 1000000)) := by
   intro h
+  have t : rangeTol = 1 / 562949953421312 := by unfold rangeTol; simp
+  rw [t] at h
   rcases h with h | h | h <;> grind
 
 theorem range_count (a b st : Rat) (h1 : a < b) (h2 : 0 < st) (h4 : (b - a) / 100000 ≤ st) :
@@ -32,20 +34,50 @@ theorem range_count (a b st : Rat) (h1 : a < b) (h2 : 0 < st) (h4 : (b - a) / 10
   have := Rat.intCast_le_intCast.1 this
   omega
 
-theorem range_den (a b st : Rat) (h1 : a < b) (h2 : 0 < st) (h4 : (b - a) / 100000 ≤ st) :
-    (Gen.linear a st (wrap32 (((b - a) / st).floor.toNat + 1)) 0).all = (IterSpec.range a b st).elems := by
+/-- where the spec calls the step count settled the tolerance of the implementation does not fire -/
+theorem rangeSteps_settled (a b st : Rat) (h1 : a < b) (h2 : 0 < st) (h4 : (b - a) / 100000 ≤ st)
+    (h5 : rangeSettled a b st = true) : rangeSteps a b st = ((b - a) / st).floor.toNat := by
+  have hc := range_count a b st h1 h2 h4
+  unfold rangeSteps
+  simp only []
+  rw [if_neg]
+  intro hle
+  unfold rangeSettled at h5
+  simp only [Bool.or_eq_true, decide_eq_true_eq] at h5
+  generalize (b - a) / st = q at hc hle h5
+  generalize q.floor.toNat = k at hc hle h5
+  unfold rangeTol at hle
+  rcases h5 with h5 | h5
+  · subst h5
+    have hk : ((k + 1 : Nat) : Rat) ≤ ((4294967296 : Nat) : Rat) := by exact_mod_cast Nat.le_of_lt hc
+    have e : ((k + 1 : Nat) : Rat) = ((k : Nat) : Rat) + 1 := by push_cast; rfl
+    have t : ((2 ^ 49 : Nat) : Rat) = 562949953421312 := by simp
+    have t2 : ((4294967296 : Nat) : Rat) = 4294967296 := by simp
+    rw [e, t] at hle
+    rw [e, t2] at hk
+    grind
+  · exact absurd hle (Rat.not_le.2 h5)
+
+theorem range_den (a b st : Rat) (h1 : a < b) (h2 : 0 < st) (h4 : (b - a) / 100000 ≤ st)
+    (h5 : rangeSettled a b st = true) :
+    (Gen.linear a st (wrap32 (rangeSteps a b st + 1)) 0).all = (IterSpec.range a b st).elems := by
   have := range_count a b st h1 h2 h4
+  rw [rangeSteps_settled a b st h1 h2 h4 h5]
   have hw : wrap32 (((b - a) / st).floor.toNat + 1) = ((b - a) / st).floor.toNat + 1 := by unfold wrap32; omega
   rw [hw]
   simp [Gen.all, IterSpec.range, Den.elems]
 
+/-- the checks and the generator of `_mpt_iterator_range` once bounds and step are known -/
+def rangeMake (mn mx step : Rat) : Option Gen :=
+  if ¬ (0 < step) ∨ (mx - mn) * (1 + rangeTol) < step ∨ step < (mx - mn) * (1 / 1000000) then none
+  else some (.linear mn step (wrap32 (rangeSteps mn mx step + 1)) 0)
+
 /-- acceptance of the range description, bounds only (step = a tenth of the width) -/
 theorem rangeArgs_one (a0 a1 b1 ta tb : List Char) (va vb : Rat)
     (oa : OptBlank a0) (oa1 : OptBlank a1) (ob1 : OptBlank b1)
-    (h1 : strictNumber ta = some va) (h2 : strictNumber tb = some vb)
-    (c1 : va < vb) :
+    (h1 : strictNumber ta = some va) (h2 : strictNumber tb = some vb) :
     rangeArgs (a0 ++ '(' :: (a1 ++ (ta ++ ' ' :: (tb ++ (b1 ++ [')'])))))
-      = some (.linear va ((vb - va) / 10) (wrap32 (((vb - va) / ((vb - va) / 10)).floor.toNat + 1)) 0) := by
+      = rangeMake va vb ((vb - va) / 10) := by
   unfold rangeArgs
   rw [nextvis_opt a0 '(' _ oa paren_open_graph.1 paren_open_graph.2]
   simp only [List.tail_cons, ne_eq, not_true_eq_false, ↓reduceIte]
@@ -58,18 +90,14 @@ theorem rangeArgs_one (a0 a1 b1 ta tb : List Char) (va vb : Rat)
   rw [hst]
   simp only []
   rw [(nextIs_opt b1 ')' [] ob1 paren_close_graph.1 paren_close_graph.2).1]
-  have hw : (0 : Rat) < vb - va := by grind
-  have := range_check va vb ((vb - va) / 10) c1 (by grind) (by grind) (by grind)
-  simp only [Bool.not_true, Bool.false_eq_true, ↓reduceIte]
-  rw [if_neg this]
+  simp only [Bool.not_true, Bool.false_eq_true, ↓reduceIte, rangeMake]
 
 /-- acceptance of the range description with an explicit step -/
 theorem rangeArgs_two (a0 a1 b1 a2 b2 ta tb ts : List Char) (va vb vs : Rat)
     (oa : OptBlank a0) (oa1 : OptBlank a1) (ob1 : OptBlank b1) (oa2 : OptBlank a2) (ob2 : OptBlank b2)
-    (h1 : strictNumber ta = some va) (h2 : strictNumber tb = some vb) (h3 : strictNumber ts = some vs)
-    (c1 : va < vb) (c2 : 0 < vs) (c3 : vs ≤ vb - va) (c4 : (vb - va) / 100000 ≤ vs) :
+    (h1 : strictNumber ta = some va) (h2 : strictNumber tb = some vb) (h3 : strictNumber ts = some vs) :
     rangeArgs (a0 ++ '(' :: (a1 ++ (ta ++ ' ' :: (tb ++ (b1 ++ ':' :: (a2 ++ (ts ++ (b2 ++ [')']))))))))
-      = some (.linear va vs (wrap32 (((vb - va) / vs).floor.toNat + 1)) 0) := by
+      = rangeMake va vb vs := by
   unfold rangeArgs
   rw [nextvis_opt a0 '(' _ oa paren_open_graph.1 paren_open_graph.2]
   simp only [List.tail_cons, ne_eq, not_true_eq_false, ↓reduceIte]
@@ -84,21 +112,11 @@ theorem rangeArgs_two (a0 a1 b1 a2 b2 ta tb ts : List Char) (va vb vs : Rat)
   rw [hst]
   simp only []
   rw [(nextIs_opt b2 ')' [] ob2 paren_close_graph.1 paren_close_graph.2).1]
-  have := range_check va vb vs c1 c2 c3 c4
-  simp only [Bool.not_true, Bool.false_eq_true, ↓reduceIte]
-  rw [if_neg this]
+  simp only [Bool.not_true, Bool.false_eq_true, ↓reduceIte, rangeMake]
 
-/-- **a recognised `range(…)` description is accepted and denotes its sequence** -/
-theorem accept_range (s : List Char) (a b st : Rat) (den : Den)
-    (h : recognise s = some (.range a b st)) (hd : (Desc.range a b st).den = some den) :
-    ∃ g, create s = some g ∧ g.all = den.elems ∧ g.rem = g.all ∧ g.WF := by
-  have hk : a < b ∧ 0 < st ∧ st ≤ b - a ∧ (b - a) / 100000 ≤ st ∧ den = IterSpec.range a b st := by
-    simp only [Desc.den] at hd
-    split at hd
-    · rename_i hc; cases hd; exact ⟨hc.1, hc.2.1, hc.2.2.1, hc.2.2.2, rfl⟩
-    · cases hd
-  obtain ⟨c1, c2, c3, c4, hden⟩ := hk
-  subst hden
+/-- a recognised `range(…)` description reaches the checks of `_mpt_iterator_range` with its bounds and step -/
+theorem range_created (s : List Char) (a b st : Rat) (h : recognise s = some (.range a b st)) :
+    create s = rangeMake a b st := by
   unfold recognise at h
   simp only [] at h
   split at h
@@ -137,10 +155,9 @@ theorem accept_range (s : List Char) (a b st : Rat) (den : Den)
           rw [create_keyword s hname' hl]
           simp only []
           rw [if_neg (by rw [hkw']; decide), if_neg (by rw [hkw']; decide), if_pos hkw', hrest, ← hj, hf1]
-          have := rangeArgs_one a0 a1 b1 ta tb a' b' oa oa1 ob1 h1 h2 c1
+          have := rangeArgs_one a0 a1 b1 ta tb a' b' oa oa1 ob1 h1 h2
           simp only [List.append_assoc, List.cons_append, List.nil_append] at this ⊢
           rw [this]
-          exact ⟨_, rfl, range_den a' b' _ c1 c2 c4, by simp [Gen.rem], trivial⟩
         | [], h, _ => simp at h
         | [_], h, _ => simp at h
         | _ :: _ :: _ :: _, h, _ => simp at h
@@ -176,14 +193,31 @@ theorem accept_range (s : List Char) (a b st : Rat) (den : Den)
             rw [create_keyword s hname' hl]
             simp only []
             rw [if_neg (by rw [hkw']; decide), if_neg (by rw [hkw']; decide), if_pos hkw', hrest, ← hj, hf1, hf2]
-            have := rangeArgs_two a0 a1 b1 a2 b2 ta tb stx a' b' s' oa oa1 ob1 oa2 ob2 h1 h2 h3 c1 c2 c3 c4
+            have := rangeArgs_two a0 a1 b1 a2 b2 ta tb stx a' b' s' oa oa1 ob1 oa2 ob2 h1 h2 h3
             simp only [List.append_assoc, List.cons_append, List.nil_append] at this ⊢
             rw [this]
-            exact ⟨_, rfl, range_den a' b' s' c1 c2 c4, by simp [Gen.rem], trivial⟩
           | [], _, h, _, _ => simp at h
           | [_], _, h, _, _ => simp at h
           | _ :: _ :: _ :: _, _, h, _, _ => simp at h
           | [_, _], [], h, _, _ => simp at h
           | [_, _], _ :: _ :: _, h, _, _ => simp at h
+
+
+/-- **a recognised `range(…)` description is accepted and denotes its sequence** -/
+theorem accept_range (s : List Char) (a b st : Rat) (den : Den)
+    (h : recognise s = some (.range a b st)) (hd : (Desc.range a b st).den = some den) :
+    ∃ g, create s = some g ∧ g.all = den.elems ∧ g.rem = g.all ∧ g.WF := by
+  have hk : a < b ∧ 0 < st ∧ st ≤ b - a ∧ (b - a) / 100000 ≤ st ∧ rangeSettled a b st = true
+      ∧ den = IterSpec.range a b st := by
+    simp only [Desc.den] at hd
+    split at hd
+    · rename_i hc; cases hd; exact ⟨hc.1, hc.2.1, hc.2.2.1, hc.2.2.2.1, hc.2.2.2.2, rfl⟩
+    · cases hd
+  obtain ⟨c1, c2, c3, c4, c5, hden⟩ := hk
+  subst hden
+  rw [range_created s a b st h]
+  unfold rangeMake
+  rw [if_neg (range_check a b st c1 c2 c3 c4)]
+  exact ⟨_, rfl, range_den a b st c1 c2 c4 c5, by simp [Gen.rem], trivial⟩
 
 end Mpt.Iter
